@@ -338,6 +338,25 @@ def wrapper_one(dt, capcase, prop="C15"):
     return K.run_paths(f"{prop}/arnoldi[{dt};{capcase}]", FN + "arnoldi", thunk, dict(engine="ARNOLDI", part="wrapper", dtype=dt, cap=capcase))
 
 
+def floor_one():
+    """Lemma over the two contracts that loop_one ties to the code (continue iff ||w|| > tol * H[1, 0]; q' = w / max(||w||, tol/2)):
+    every vector the process continues from is a unit vector, i.e. the floor of the normalisation never acts on a step the stopping rule accepts.  It is what
+    makes the hypotheses 'normalisation not clipped' of the relation / orthonormality obligations hold for every operator SCALE (arnoldi(cA, v) = (Q, cH))."""
+    t0 = time.time()
+    nr, h10, tol = z3.Real("norm_w"), z3.Real("H10"), z3.Real("tol")
+    facts = [nr >= 0, h10 > 0, tol > 0]
+    goal = z3.Implies(nr > tol * h10, z3.If(nr >= tol / 2, nr, tol / 2) == nr)
+    res = alg.prove(facts, goal, 4000)
+    ok = res["status"] == "unsat"
+    ob = Ob(key="C15/arnoldi_fact/scale invariance: a step the stopping rule accepts (||w|| > tol * H[1, 0]) is normalised by ||w|| itself (the floor tol/2 does not act)",
+            fn=FN + "arnoldi_fact", clause="continuation test and normalisation floor are consistent for every operator scale", engine="IDX", status=DISCHARGED if ok else FAILED,
+            backend="z3 (nonlinear real arithmetic)", secs=time.time() - t0, detail="unsat" if ok else f"{res['status']}: e.g. ||w|| = H[1,0] = 1e-9, tol = 1e-7 (floor 5e-8)")
+    ob.smt = f"(assert (not {goal.sexpr()}))"
+    if not ok:
+        ob.witness = dict(engine="ARNOLDI", part="scale")
+    return [ob]
+
+
 def cap_one(capcase):
     """composition arnoldi() -> init_arnoldi + arnoldi_fact (both real): the loop's cap and the buffers are min(max_iters, n)"""
     from vcgen.rules import sym_dim
@@ -433,13 +452,13 @@ def run(chk):
     chk.assume("the Householder variant (use_householder=True) and batched start vectors (xnp.vmap) are outside the domain")
     tasks = [("loop", "real"), ("loop", "complex"), ("init", "real"), ("init", "complex"), ("init", "mixed"),
              ("wrapper", "real", "cap<n"), ("wrapper", "real", "cap>=n"), ("wrapper", "complex", "cap<n"), ("wrapper", "complex", "cap>=n"), ("wrapper", "vcomplex", "cap<n"),
-             ("eigs", "real"), ("eigs", "complex"), ("relation", "real"), ("relation", "complex"), ("cap", "cap<n"), ("cap", "cap>=n"), ("orth", "real"), ("orth", "complex")]
+             ("eigs", "real"), ("eigs", "complex"), ("relation", "real"), ("relation", "complex"), ("cap", "cap<n"), ("cap", "cap>=n"), ("orth", "real"), ("orth", "complex"), ("floor",)]
     for nm in ("arnoldi_fact", "init_arnoldi", "arnoldi", "arnoldi_eigs"):
         chk.under_contract(FN + nm)
 
     def work(j):
         t = tasks[j]
-        return {"loop": loop_one, "init": init_one, "wrapper": wrapper_one, "eigs": eigs_one, "relation": relation_one, "cap": cap_one, "orth": orth_one}[t[0]](*t[1:])
+        return {"loop": loop_one, "init": init_one, "wrapper": wrapper_one, "eigs": eigs_one, "relation": relation_one, "cap": cap_one, "orth": orth_one, "floor": floor_one}[t[0]](*t[1:])
     for obs in pmap(work, len(tasks)):
         for ob in obs:
             chk.add(ob)
